@@ -35,6 +35,7 @@ pub fn run(ctx: &mut Ctx) {
   let mut states_seen = std::collections::HashSet::<u64>::new();
   let mut accept_mode1_upper = 0u64;
   let mut configs = 0u64;
+  let mut power_on_checks = 0u64;
   for &ct in super::c11::TYPES.iter() {
     for (ri, &rc) in super::c11::ROM_CODES.iter().enumerate() {
       for (rai, &rac) in super::c11::RAM_CODES.iter().enumerate() {
@@ -81,6 +82,42 @@ pub fn run(ctx: &mut Ctx) {
           ctx.violation(&format!("C12:{}:{}", name, what), &format!("type {:02X}, {} ROM banks, {} bytes RAM: {}", ct, banks, ram_bytes, detail));
         };
         let mut rng = Rng::from(&[seed, 12, cfg]);
+        // ---- the empty sequence and sequences that leave registers at their power-on
+        // values: every register starts at 0 (the low ROM register reads as bank 1)
+        if name != "rom-only" {
+          let check = |ctx: &mut Ctx, after: &str, rom: usize, rom_alt: usize, ram: usize| {
+            let got = visible_rom_bank(mp);
+            if got != rom % banks && got != rom_alt % banks {
+              ctx.violation(&format!("C12:{}:power-on:rom-bank", name), &format!("type {:02X}, {} ROM banks, {} bytes RAM: {}: the window shows bank {}, protocol gives {}", ct, banks, ram_bytes, after, got, rom % banks));
+            }
+            if low_rom_bank(mp) != 0 {
+              ctx.violation(&format!("C12:{}:power-on:low-window-not-bank0", name), &format!("type {:02X}, {} ROM banks: {}: 0x0000 shows bank {}", ct, banks, after, low_rom_bank(mp)));
+            }
+            if ram_banks > 0 && visible_ram_bank(mp) != ram % ram_banks {
+              ctx.violation(&format!("C12:{}:power-on:ram-bank", name), &format!("type {:02X}, {} bytes RAM: {}: RAM window shows bank {}, protocol gives {}", ct, ram_bytes, after, visible_ram_bank(mp), ram % ram_banks));
+            }
+          };
+          check(ctx, "no write at all", 1, 1, 0);
+          memory_write_byte(mp, 0x0000, 0x0a);
+          check(ctx, "only RAM enable written", 1, 1, 0);
+          if name == "mbc1" {
+            // mode 1 with the upper register never written: it is still 0
+            memory_write_byte(mp, 0x6000, 0x01);
+            check(ctx, "only mode <- 1 written (upper register at its power-on value)", 1, 1, 0);
+            memory_write_byte(mp, 0x6000, 0x00);
+            check(ctx, "mode <- 1, mode <- 0 written", 1, 1, 0);
+            memory_write_byte(mp, 0x2000, 0x05);
+            check(ctx, "low register <- 5 written (upper register at its power-on value)", 5, 5, 0);
+            memory_write_byte(mp, 0x6000, 0x01);
+            check(ctx, "low register <- 5, mode <- 1 written (upper register at its power-on value)", 5, 5, 0);
+            memory_write_byte(mp, 0x6000, 0x00);
+          } else {
+            memory_write_byte(mp, 0x2000, 0x05);
+            check(ctx, "only ROM bank <- 5 written (RAM bank register at its power-on value)", 5, 5, 0);
+          }
+          transitions += 8;
+          power_on_checks += 1;
+        }
         match name {
           "rom-only" => {
             // every (area, value): nothing may change
@@ -303,6 +340,7 @@ pub fn run(ctx: &mut Ctx) {
   }
   ctx.count("evaluations", transitions);
   ctx.count("configurations", configs);
+  ctx.count("configurations-checked-from-power-on", power_on_checks);
   ctx.count("register-states-reached(this worker)", states_seen.len() as u64);
   ctx.count("accept-set:mbc1-mode1-upper-bits-applied", accept_mode1_upper);
 }
